@@ -1,12 +1,12 @@
 (* Extraction of the executable model, specification and judges.  ExtrOcamlBasic only: Z, positive,
    N stay Coq's inductive types. *)
 From Coq Require Import ExtrOcamlBasic.
-From Apd Require Import Generated.Consts Model.Base Model.NumDigits Model.Decimal Model.Context Model.Roots Spec.SpecZ Oracle.Judge Oracle.JudgeModes Oracle.JudgeTraps Model.ErrDec Model.BigInt Oracle.JudgeBig Model.Conv Oracle.JudgeConv Model.Text Model.Compose Spec.Grammar Oracle.JudgeText Oracle.JudgeRoots Model.Exp Oracle.JudgeExp Model.Ln Oracle.JudgeLn.
+From Apd Require Import Generated.Consts Model.Base Model.NumDigits Model.Decimal Model.Context Model.Roots Spec.SpecZ Oracle.Judge Oracle.JudgeModes Oracle.JudgeTraps Model.ErrDec Model.BigInt Oracle.JudgeBig Model.Conv Oracle.JudgeConv Model.Text Model.Compose Spec.Grammar Oracle.JudgeText Oracle.JudgeRoots Model.Exp Oracle.JudgeExp Model.Ln Model.LnHalley Oracle.JudgeLn Model.Pow Oracle.JudgePow.
 Extraction Language OCaml.
 Set Extraction KeepSingleton.
 Extraction "apd_model.ml"
   cond_of_Z cond_to_Z
   corr_full oracle_c01 oracle_c02_arith oracle_c02_ext oracle_c07 judge_numdigits judge_numdigits_pow10 judge_dec_reduce oracle_ctx_reduce
   oracle_c08 oracle_c08_fn corr_prologue oracle_c09 oracle_c10 oracle_c15_ctx judge_cmp
-  judge_modes judge_mono oracle_c03 judge_ed judge_bigstep judge_int64 judge_set_finite judge_new_big judge_modf judge_format judge_format_extreme judge_parse judge_format_verb judge_compose judge_compose_full judge_ctx_set_string oracle_sqrt oracle_cbrt corr_root corr_exp corr_ln ln_modelled
+  judge_modes judge_mono oracle_c03 judge_ed judge_bigstep judge_int64 judge_set_finite judge_new_big judge_modf judge_format judge_format_extreme judge_parse judge_format_verb judge_compose judge_compose_full judge_ctx_set_string oracle_sqrt oracle_cbrt corr_root corr_exp corr_ln ln_modelled corr_ln_full ln_path corr_pow pow_modelled
   run_model same_value.
